@@ -461,6 +461,11 @@ fn format_node<'source>(
 
             group = group.str("import").space_or_indent();
 
+            if items.is_empty() {
+                // A wildcard import
+                group = group.char('*');
+            }
+
             for (i, ImportItem { item, name }) in items.iter().enumerate() {
                 group = group.nested(0, node, |mut nested| {
                     nested = nested.node(*item);
